@@ -510,63 +510,69 @@ fn all_descriptions(e: &Expect) -> Vec<String> {
     v
 }
 
-/// C17-F1: a deprecation reason is written between double quotes with its own double quotes unescaped
-fn repair_f1(sdl: &str, e: &Expect) -> Option<String> {
-    let mut out = sdl.to_string();
+/// replace every occurrence of a `bad` rendering by its `good` one in ONE left-to-right pass (longest match first, the
+/// replaced text is not scanned again)
+fn replace_pairs(text: &str, mut pairs: Vec<(String, String)>) -> Option<String> {
+    pairs.sort_by(|x, y| y.0.len().cmp(&x.0.len()));
+    pairs.dedup();
+    let mut out = String::new();
+    let mut rest = text;
     let mut hit = false;
-    for r in all_reasons(e) {
-        if r.contains('"') {
-            let bad = format!("@deprecated(reason: \"{}\")", reason_as_exported(&r));
-            let good = format!("@deprecated(reason: \"{}\")", reason_as_exported(&r).replace('"', "\\\""));
-            if out.contains(&bad) {
-                out = out.replace(&bad, &good);
+    'outer: while !rest.is_empty() {
+        for (bad, good) in &pairs {
+            if rest.starts_with(bad.as_str()) {
+                out.push_str(good);
+                rest = &rest[bad.len()..];
                 hit = true;
+                continue 'outer;
             }
         }
+        let c = rest.chars().next().unwrap();
+        out.push(c);
+        rest = &rest[c.len_utf8()..];
     }
     hit.then_some(out)
 }
+
+/// C17-F1: a deprecation reason is written between double quotes with its own double quotes unescaped
+fn repair_f1(sdl: &str, e: &Expect) -> Option<String> {
+    let mut pairs = vec![];
+    for r in all_reasons(e) {
+        if r.contains('"') {
+            pairs.push((format!("@deprecated(reason: \"{}\")", reason_as_exported(&r)), format!("@deprecated(reason: \"{}\")", reason_as_exported(&r).replace('"', "\\\""))));
+        }
+    }
+    replace_pairs(sdl, pairs)
+}
 /// C17-F2: a description written as a block string keeps `"""` unescaped
 fn repair_f2(sdl: &str, e: &Expect, o: &O) -> Option<String> {
-    let mut out = sdl.to_string();
-    let mut hit = false;
+    let mut pairs = vec![];
     for d in all_descriptions(e) {
         if d.contains("\"\"\"") && !(o.single_line && !d.contains('\n')) {
             for level in 0..3 {
                 let tabs = o.tab().repeat(level);
                 let block = |text: &str| format!("{tabs}\"\"\"\n{tabs}{}\n{tabs}\"\"\"\n", text.replace('\n', &format!("\n{tabs}")));
-                let bad = block(&d);
-                let good = block(&d.replace("\"\"\"", "\\\"\"\""));
-                if out.contains(&bad) {
-                    out = out.replace(&bad, &good);
-                    hit = true;
-                }
+                pairs.push((block(&d), block(&d.replace("\"\"\"", "\\\"\"\""))));
             }
         }
     }
-    hit.then_some(out)
+    replace_pairs(sdl, pairs)
 }
 /// C17-F3: a description written as a one-line string keeps backslashes unescaped
 fn repair_f3(sdl: &str, e: &Expect, o: &O) -> Option<String> {
     if !o.single_line {
         return None;
     }
-    let mut out = sdl.to_string();
-    let mut hit = false;
+    let mut pairs = vec![];
     for d in all_descriptions(e) {
         if d.contains('\\') && !d.contains('\n') {
             for level in 0..3 {
                 let tabs = o.tab().repeat(level);
-                let bad = format!("{tabs}\"{}\"\n", d.replace('"', "\\\""));
-                let good = format!("{tabs}\"{}\"\n", d.replace('\\', "\\\\").replace('"', "\\\""));
-                if out.contains(&bad) {
-                    out = out.replace(&bad, &good);
-                    hit = true;
-                }
+                pairs.push((format!("{tabs}\"{}\"\n", d.replace('"', "\\\"")), format!("{tabs}\"{}\"\n", d.replace('\\', "\\\\").replace('"', "\\\""))));
             }
         }
     }
-    hit.then_some(out)
+    replace_pairs(sdl, pairs)
 }
 /// C17-F4 (dynamic schemas): the `implements` list of an interface is not exported
 fn adjust_f4(e: &Expect) -> Option<Expect> {
@@ -607,6 +613,7 @@ fn judge_sdl(sdl: &str, e: &Expect, o: &O, dynamic: bool, open: &[bool; 5]) -> R
         Err(w) => w,
     };
     let mut best: Option<Vec<&'static str>> = None;
+    let mut residual = String::new();
     for mask in 1u32..32 {
         let set: Vec<usize> = (0..5).filter(|i| mask & (1 << i) != 0).collect();
         if set.iter().any(|i| !open[*i]) || best.as_ref().map_or(false, |b| b.len() <= set.len()) {
@@ -634,11 +641,14 @@ fn judge_sdl(sdl: &str, e: &Expect, o: &O, dynamic: bool, open: &[bool; 5]) -> R
                 None => applicable = false,
             }
         }
-        if applicable && strict(&text, &exp, o).is_ok() {
-            best = Some(set.iter().map(|i| FINDINGS[*i]).collect());
+        if applicable {
+            match strict(&text, &exp, o) {
+                Ok(()) => best = Some(set.iter().map(|i| FINDINGS[*i]).collect()),
+                Err(w) => residual = format!("; with the quirks of {:?} undone: {}", set.iter().map(|i| FINDINGS[*i]).collect::<Vec<_>>(), w),
+            }
         }
     }
-    best.ok_or(why)
+    best.ok_or(format!("{}{}", why, residual))
 }
 
 // ---------------------------------------------------------------------------------------------------------------
@@ -1530,7 +1540,7 @@ fn expect_prb() -> Expect {
 pub fn run(ctx: &mut Ctx) {
     ctx.rule = "sources: gen_sch dynamic schemas decorated with descriptions / deprecation reasons / string defaults drawn from quotes, triple quotes, backslashes, escape look-alikes, \
                 TAB, non-BMP and odd Unicode, built with every description and deprecation forwarded; two derive-built static schemas with a hand-written expectation table (all element \
-                kinds, custom directives, defaults of every value kind, interface implementing an interface, union, oneOf). Exports: all 768 option combinations (8 toggles x indent \
+                kinds, custom directives, defaults of every value kind, interface implementing an interface, union, oneOf). Exports: 768 option sets (all 256 combinations of the 8 toggles, with use_space_ident at indent \
                 widths 0/1/2/4/9) for the static schemas and 10 generated ones, default + 3 drawn option sets for every other generated schema. Oracle: parse_schema and the reference \
                 parser accept the SDL and its read-back equals the source. Non-trivial = some text needs escaping, or an interface implements an interface, or the options are not the \
                 default; distinct by rendered (source, options)"
@@ -1583,14 +1593,14 @@ pub fn run(ctx: &mut Ctx) {
         }
     }
     ctx.enumerated("dynamic-options", n_dyn, true, t1);
-    ctx.exhaustive = Some(true);
+    ctx.note("option_sets_per_enumerated_schema", json!(all.len()));
 
     // ---- generated dynamic schemas, drawn options
-    let n = ctx.tier.pick(4_000, 150_000);
+    let n = ctx.tier.pick(6_000, 200_000);
     ctx.stream("dynamic", n, 900, |s| dynamic_case(s, &main_allow, &open, 3));
     if open[..4].iter().any(|x| *x) {
         let probe_allow = Allow { quote_in_reason: true, triple_quote_in_description: true, backslash_in_one_line_description: true, interface_inheritance: true };
-        ctx.stream("probe-findings", n / 4, 900, |s| dynamic_case(s, &probe_allow, &open, 3));
+        ctx.stream("probe-findings", n / 6, 900, |s| dynamic_case(s, &probe_allow, &open, 3));
     }
     ctx.floor("text-needing-escape", 500);
     ctx.floor("non-default-options", 500);
